@@ -39,6 +39,7 @@ class Ref(object):
         self.m = {}          # id -> [sender, rcpts, content, ts, attempts]
         self.dead = set()
         self.ann = []        # (timestamp, id) announced by write(), not yet handed out by wait()
+        self.orph = {}       # redis only: half-written entries id -> envelope
 
     def live(self):
         return sorted(self.m)
@@ -55,12 +56,18 @@ class Ref(object):
                     return ('id', c)
             return ('noid',)
         if k == 'load':
-            return ('load', tuple(sorted((e[3], i) for i, e in self.m.items())))
+            return ('load', tuple(sorted([(e[3], i) for i, e in self.m.items()] + [(o[1], i) for i in self.orph])))
+        if k == 'orphan':
+            self.orph[o[1]] = o[2]
+            return ('unit',)
         if k == 'wait':
             return ('load', (self.ann.pop(0),)) if self.ann else ('load', ())
         id = o[1]
         e = self.m.get(id)
         if k == 'get':
+            if e is None and id in self.orph:
+                s_, r_, c_ = self.orph[id]
+                return ('got', s_, tuple(r_), c_, 0)
             if e is None:
                 return ('missing',)
             return ('got', e[0], tuple(e[1]), e[2], e[4])
@@ -90,7 +97,7 @@ class Ref(object):
 
 def wf_op(ref, o):
     k = o[0]
-    if k in ('write', 'load', 'get', 'wait'):
+    if k in ('write', 'load', 'get', 'wait', 'orphan'):
         return True
     e = ref.m.get(o[1])
     if e is None:
@@ -121,6 +128,9 @@ def enc_op(o):
         return [6, o[1]]
     if k == 'wait':
         return [7]
+    if k == 'orphan':
+        s_, r_, c_ = o[2]
+        return [8, o[1], [s_, list(r_), c_]]
     raise ValueError(k)
 
 
@@ -144,7 +154,7 @@ def dec_res(v):
     return MODEL_ERR[t]
 
 
-CMD = {'exists': 0, 'mktemp': 1, 'write': 2, 'rename': 3, 'unlink': 4, 'read': 5, 'listdir': 6}
+CMD = {'exists': 0, 'mktemp': 1, 'write': 2, 'rename': 3, 'unlink': 4, 'read': 5, 'listdir': 6, 'close': 7}
 
 
 def canon_eff(d):
@@ -158,6 +168,8 @@ def canon_eff(d):
         return (2, d[1], d[2], ('B', tuple(d[3])))
     if k == 'rename':
         return (3, d[1], d[2])
+    if k == 'close':
+        return (7, d[1])
     return (6,)
 
 
@@ -230,8 +242,11 @@ class Adapter(object):
             raise ValueError(name)
 
     def _patch(self, mod, name, val):
-        old = getattr(mod, name)
-        self.stack.callback(setattr, mod, name, old)
+        # a module that no longer has the name (a dropped import) gets it for the run only
+        if hasattr(mod, name):
+            self.stack.callback(setattr, mod, name, getattr(mod, name))
+        else:
+            self.stack.callback(lambda: hasattr(mod, name) and delattr(mod, name))
         setattr(mod, name, val)
 
     def _open_shelves(self):
@@ -267,6 +282,12 @@ class Adapter(object):
                 rid = st.write(sf.mk_envelope(*o[1]), o[2])
                 self.written[int(rid)] = rid
                 return ('id', int(rid))
+            if k == 'orphan':
+                # a writer died between HSETNX envelope and the pipeline: envelope field only
+                import pickle
+                self.fake.data[('slimta:%d' % o[1]).encode()] = {
+                    b'envelope': pickle.dumps(sf.mk_envelope(*o[2]), pickle.HIGHEST_PROTOCOL)}
+                return ('unit',)
             if k in ('load', 'wait'):
                 if self.name == 'redis':
                     self.clock.now = o[1] if k == 'load' else 0
@@ -477,6 +498,29 @@ def exhaustive_sequences(maxlen):
 _seen = {}
 
 
+def with_orphans(sq, idx):
+    """redis variant: half-written entries (ids 900+) appear at deterministic places;
+    each is followed by load() and get(orphan), and again at the end"""
+    import random
+    ops, forms, ids = sq
+    rng = random.Random(1000 + idx)
+    out, fo = [], []
+    orphans = []
+    for o, f in zip(ops, forms):
+        if len(orphans) < 2 and rng.random() < 0.25:
+            oid = 900 + len(orphans)
+            env = (rng.choice(SENDERS), tuple(rng.choice(RCPTS) for _ in range(rng.choice([1, 2]))), rng.choice(CONTENTS))
+            out.append(('orphan', oid, env)); fo.append('set'); orphans.append(oid)
+            out.append(('load', 7000 + oid)); fo.append('set')
+            out.append(('get', oid)); fo.append('set')
+        out.append(o); fo.append(f)
+    if not orphans:
+        env = (SENDERS[0], (RCPTS[0],), CONTENTS[0])
+        out[0:0] = [('orphan', 900, env)]; fo[0:0] = ['set']; orphans.append(900)
+    out += [('load', 7777)] + [('get', i) for i in orphans]; fo += ['set'] * (1 + len(orphans))
+    return out, fo, ids
+
+
 def with_waits(sq):
     """redis variant: the queue's _wait_store greenlet consumes the announcements -
     wait() calls (one per pending announcement) in front of every load()"""
@@ -522,9 +566,13 @@ def run_sequences(ctx, seqs, label, judged=True, cfgs=None):
     cfgs = cfgs or {}
     all_seqs = seqs
     for b in BACKENDS:
-        cfg_list = cfgs.get(b) or ([{}, dict(consume=True)] if b == 'redis' else [{}])
+        cfg_list = cfgs.get(b) or ([{}, dict(consume=True), dict(orphans=True)] if b == 'redis' else [{}])
         for ci, cfg in enumerate(cfg_list):
-            seqs = [with_waits(sq) for sq in all_seqs] if cfg.get('consume') else all_seqs
+            seqs = all_seqs
+            if cfg.get('consume'):
+                seqs = [with_waits(sq) for sq in all_seqs]
+            if cfg.get('orphans'):
+                seqs = [with_orphans(sq, i) for i, sq in enumerate(all_seqs)]
             inputs = [model_input(b, ops, ids, cfg) for ops, forms, ids in seqs]
             mouts = ctx.model.batch(model_name(b), inputs)
             refouts = ctx.model.batch('c15_ref', [[[enc_op(o) for o in ops], list(ids)] for ops, forms, ids in seqs]) if (b == 'dict' and ci == 0) else None
@@ -573,7 +621,10 @@ def run_sequences(ctx, seqs, label, judged=True, cfgs=None):
                     for j, (o, got, want) in enumerate(zip(ops, got_all, want_all)):
                         if got != want:
                             if judged:
-                                fail(ctx, classify(b, o, got, want), dict(case, at=j),
+                                key = classify(b, o, got, want)
+                                if cfg.get('orphans') and o[0] == 'load' and got[0] == 'exc':
+                                    key = 'c15:redis-load-raises-on-half-written-entry'
+                                fail(ctx, key, dict(case, at=j),
                                          '%s %r returned %r, the reference store returns %r' % (b, o, got, want))
                             else:
                                 ctx.count('misuse-diff:%s:%s' % (b, o[0]))
